@@ -234,3 +234,74 @@ def _reaches_ok_return(f, start, avoid, errs, rets, count_op):
             if not skip:
                 stack.append(s)
     return False
+
+
+def check_program_end(ctx, rule, cr):
+    """Program::link: the stored program ends in an End opcode that no label can jump past"""
+    f = cr.need_fn("mach::program::Program::link")
+    ctx.touch(f)
+    pushes = []
+    for c in f.calls_to("mach::link::Link::push"):
+        sv = f.stored_variant(f.value_of_operand(c.args[1]))
+        if sv and sv[1] == "End":
+            pushes.append(c)
+    lk = f.calls_to("mach::link::Link::link")
+    if not ctx.check(len(pushes) == 1 and len(lk) == 1, rule, "Program::link/appends-End", f.span,
+                     "link() appends an End and then resolves the symbols"):
+        return
+    ctx.check(f.can_reach(pushes[0].bb, lk[0].bb), rule, "Program::link/End-before-resolution",
+              f.span, "the End is appended before symbols are resolved")
+    hsa = [c for c in f.calls() if c.name == "mach::link::Link::has_symbol_at"
+           and "Link::len" in f.describe(c.args[1])]
+    avoid = {pushes[0].bb} | {c.bb for c in hsa}
+    avoid |= _flag_blocks_leading_to(f, pushes[0].bb, lk[0].bb)
+    skipped_blind = lk[0].bb in f.reach_set(0, avoid=avoid)
+    ctx.check(bool(hsa) and not skipped_blind, rule, "Program::link/no-label-past-last-End",
+              pushes[0].span,
+              "the End is only omitted after checking that no label points past the last opcode",
+              "Program::link omits the final End whenever the last opcode is already an End, "
+              "without checking for a label behind it: a program ending in `IF c THEN END` falls "
+              "through into the direct line's code when c is false (behaviour depends on whether "
+              "another line follows)")
+
+
+def _flag_blocks_leading_to(f, push_bb, lk_bb):
+    """blocks that assign a constant to a bool local which a later switch tests, where that
+    constant selects the edge that cannot skip push_bb (`let needs = a || b; if needs {push}`
+    lowers to needs=true / needs=b() blocks joined in front of one switch)."""
+    from lib.mir import op_place, op_const, const_val
+    out = set()
+    defs = f.defs()
+    for sb in f.reachable():
+        t = f.term(sb)
+        if t["k"] != "switch":
+            continue
+        p = op_place(t["discr"])
+        if p is None or p["proj"]:
+            continue
+        root = p["local"]
+        seen = set()
+        while root not in seen:           # follow `_t = copy flag`
+            seen.add(root)
+            ds = defs.get(root, [])
+            nxt = None
+            if len(ds) == 1 and ds[0][0] == "stmt" and ds[0][3]["k"] == "use":
+                q = op_place(ds[0][3]["op"])
+                if q is not None and not q["proj"]:
+                    nxt = q["local"]
+            if nxt is None:
+                break
+            root = nxt
+        edges = {val: tb for val, tb in t["targets"]}
+        for d in defs.get(root, []):
+            if d[0] != "stmt" or d[3]["k"] != "use":
+                continue
+            c = op_const(d[3]["op"])
+            if c is None:
+                continue
+            v = const_val(c)
+            v = 1 if v is True else 0 if v is False else v
+            tb = edges.get(v, t["otherwise"])
+            if lk_bb not in f.reach_set(tb, avoid={push_bb}):
+                out.add(d[1])
+    return out
